@@ -2,7 +2,7 @@
 From Coq Require Import List NArith Bool Arith Lia.
 From SNT Require Import Base.Outcome Automata.Regex Automata.NFA Automata.Build Automata.Compile
   Automata.PathLemmas Automata.BuildLeaves Automata.BuildProofs Automata.CompileSpec
-  Automata.CompileProofs Automata.BuildKeys Automata.BuildTags.
+  Automata.CompileProofs Automata.BuildKeys Automata.BuildTags Automata.CompileTotal.
 Import ListNotations.
 
 Theorem main_matches (e : regex) (fuel cf : nat) (d : dfa) :
@@ -53,4 +53,17 @@ Proof.
   rewrite Hr in Hr'. inversion Hr'; subst r.
   destruct Hm as [i [Hi [_ [_ [Htags _]]]]]. exists i. split; [exact Hi|].
   intros t. rewrite Htags. apply (tags_correct e Hwf s t).
+Qed.
+
+(* compile returns for every built NFA (termination and panic freedom of the model) *)
+Theorem main_total (e : regex) : exists fuel cf d, compile fuel cf (build e) = Ok d.
+Proof. apply compile_total; [apply build_wf|apply build_keys]. Qed.
+
+(* unconditional form of the property *)
+Theorem main_unconditional (e : regex) :
+  exists fuel cf d, compile fuel cf (build e) = Ok d /\
+    forall s, bytes s -> exists b, dfa_matches d s = Ok b /\ (b = true <-> matches e s).
+Proof.
+  destruct (main_total e) as [fuel [cf [d E]]]. exists fuel, cf, d. split; [exact E|].
+  apply (main_matches e fuel cf d E).
 Qed.
